@@ -540,6 +540,8 @@ class _NpcArrayStorage(PickleStorage):
         value = value.copy(deep=False)
         data = value._data
         value._data = len(data)  # replace _data attribute with just the length
+        # metadata of a previously saved value doesn't fit to the file anymore as soon as we start writing
+        self._array_except_data.pop(key, None)
         with open(self.directory / (key + self.extension), 'wb') as f:
             np.save(f, value._qdata)
             for T in data:
@@ -549,7 +551,7 @@ class _NpcArrayStorage(PickleStorage):
 
     def delete(self, key):
         super().delete(key)
-        del self._array_except_data[key]
+        self._array_except_data.pop(key, None)
 
 
 class Hdf5Storage(Storage):
